@@ -163,32 +163,18 @@ bool StepScript(InterpreterEnv& env)
         env.execdata_history.push_back(env.execdata);
         env.opcode_pos_history.push_back(env.opcode_pos);
 
-        bool stepped;
-        if (env.has_op_success) {
-            // the script succeeds unconditionally (BIP342): its operations are walked over, not executed
-            opcodetype opcode;
-            valtype vchPushValue;
-            if (pc == env.script.begin()) btc_logf("note: the script contains an OP_SUCCESSx opcode: it succeeds unconditionally and its operations are not executed\n");
-            stepped = env.script.GetOp(pc, opcode, vchPushValue) || set_error(env.serror, SCRIPT_ERR_BAD_OPCODE);
-        } else {
-            // a step can also fail by throwing (script number too long or not minimal): the history entry of
-            // a failed step must go in either case, or a later rewind undoes a step that was never made
-            try {
-                stepped = StepScript(env, pc);
-            } catch (...) {
-                env.stack_history.pop_back();
-                env.altstack_history.pop_back();
-                env.pc_history.pop_back();
-                env.nOpCount_history.pop_back();
-                env.vfExec_history.pop_back();
-                env.pbegincodehash_history.pop_back();
-                env.execdata_history.pop_back();
-                env.opcode_pos_history.pop_back();
-                throw;
-            }
-        }
-        if (!stepped) {
-            // undo above pushes
+        // a failed step (error return or exception) leaves the session where it was: the state saved above is put
+        // back - also the position, so that the operation the marker designates is the one the next step attempts -
+        // and its history entry is dropped, or a later rewind would undo a step that was never made
+        auto undo_failed_step = [&env]() {
+            env.stack = env.stack_history.back();
+            env.altstack = env.altstack_history.back();
+            env.pc = env.pc_history.back();
+            env.nOpCount = env.nOpCount_history.back();
+            env.vfExec = env.vfExec_history.back();
+            env.pbegincodehash = env.pbegincodehash_history.back();
+            env.execdata = env.execdata_history.back();
+            env.opcode_pos = env.opcode_pos_history.back();
             env.stack_history.pop_back();
             env.altstack_history.pop_back();
             env.pc_history.pop_back();
@@ -197,6 +183,24 @@ bool StepScript(InterpreterEnv& env)
             env.pbegincodehash_history.pop_back();
             env.execdata_history.pop_back();
             env.opcode_pos_history.pop_back();
+        };
+        bool stepped;
+        if (env.has_op_success) {
+            // the script succeeds unconditionally (BIP342): its operations are walked over, not executed
+            opcodetype opcode;
+            valtype vchPushValue;
+            if (pc == env.script.begin()) btc_logf("note: the script contains an OP_SUCCESSx opcode: it succeeds unconditionally and its operations are not executed\n");
+            stepped = env.script.GetOp(pc, opcode, vchPushValue) || set_error(env.serror, SCRIPT_ERR_BAD_OPCODE);
+        } else {
+            try {
+                stepped = StepScript(env, pc);
+            } catch (...) {
+                undo_failed_step();
+                throw;
+            }
+        }
+        if (!stepped) {
+            undo_failed_step();
             return false;
         }
 
